@@ -19,6 +19,7 @@ type Ctx struct {
 	Bins     *plug.Bins
 	McDir    string
 	Workers  int
+	Run      *report.Run // the run being filled (set by the entry point): raw harness stages report registration panics here
 }
 
 func NewCtx(tier string) (*Ctx, error) {
